@@ -28,9 +28,12 @@ ASSUMPTIONS = ["BLAKE3 has no collisions among the inputs explored (hypothesis o
 PARTIAL = ["separation clause: hash_inj at full strength is REFUTED on the model of the code (Props/C05 hash_inj_dna_u_witness, known finding "
            "C05-dna-u-strand: U is accepted under type DNA and complements to A like T, so double-stranded DNA inputs differing only in U vs T "
            "collide). Proved instead: hash_inj_partial / model_hash_inj_partial under a SUFFICIENT hypothesis (double-stranded DNA inputs contain no "
-           "U; this also excludes harmless inputs such as ACU), and hash_collision_class / model_hash_collision_class, unconditional, which gives "
-           "the EXACT residue: two accepted inputs with equal hashes are the same molecule, or they are double-stranded DNA, one contains U, and "
-           "they have the same other strand up to rotation (= the driver's class predicate knownSep). Z and all other letters are covered.",
+           "U; this also excludes harmless inputs such as ACU), and the unconditional pair hash_collision_class (collision => same molecule OR the "
+           "residue class: double-stranded DNA, one input contains U, same other strand up to rotation, and the other strand is the hashed one "
+           "for both - an upper bound on the collision set) / hash_collision_of_residue (the converse: that residue always collides), which "
+           "together characterise the collisions exactly. The driver's class predicate knownSep is the residue without the 'hashed strand' "
+           "conjuncts: necessary for a collision, not sufficient (AAU/AAT), applied to observed failing pairs only, and the kf tag also requires "
+           "implementation = model on every word. Z and all other letters are covered.",
            "completeness (same molecule => same hash; with C04 it makes hash partition = orbit partition): REFUTED in the same class "
            "(hash_same_molecule_dna_u_witness: CUC and GAG, linear double-stranded DNA, GAG = rc CUC, different hashes for every injective digest). "
            "Proved: hash_same_molecule_partial under 'double-stranded DNA inputs contain no U' (Z covered).",
@@ -135,7 +138,7 @@ LEVEL_TEXT = ("Theorems (Props/C05): equal hashes imply equal type, topology, st
               "canonical representative; unknown types, foreign letters and double-stranded proteins give an error. Tie: correspondence of "
               "seqhash.Hash with the model on all cases, and the partition-by-hash = partition-by-brute-force-orbit check on every DNA word to length 9 "
               "under all four flag pairs in the thorough tier (plus alphabets with U, Z, ambiguity codes, RNA with mixed T/U).")
-LEVEL_NOTE = "Trusted: Lean kernel; harness + polymodel; BLAKE3 collision-freeness is a hypothesis; Lean BLAKE3 tested against the Go one; transferred to the Booth-loop model through C12 booth_least (model_hash_*)."
+LEVEL_NOTE = "Trusted: Lean kernel; harness + polymodel; BLAKE3 collision-freeness is a hypothesis; Lean BLAKE3 tested against the Go one; transferred to the Booth-loop model through C12 booth_least (model_hash_*). Known finding C05-dna-u-strand: the class predicate is a necessary condition on observed failing pairs (every collision lies in it; not every pair in it collides) and the tag requires correspondence on every word."
 
 HARNESS_BIN = "run-seq"
 EXTRACT_BINS = ["extract-seq"]
